@@ -71,6 +71,17 @@ def make_engine(config):
     raise core.HarnessError('unknown config ' + config)
 
 
+def cold_engine(config):
+    """An engine nobody has parsed with yet: a deep copy of a pristine
+    prototype (12 ms instead of 130 ms for building one).  Lazily initialised
+    state inside the engine is in its initial condition."""
+    import copy
+    proto = _engines.get(('proto', config))
+    if proto is None:
+        proto = _engines[('proto', config)] = make_engine(config)
+    return copy.deepcopy(proto)
+
+
 def shared_engine(config):
     e = _engines.get(config)
     if e is None:
@@ -99,7 +110,8 @@ def ref(config, text):
     k = (config, text)
     r = _refs.get(k)
     if r is None:
-        r = _refs[k] = core.fork_map(_ref_chunk, [(config, [text])], 1)[0][0][2]
+        r = _refs[k] = core.fork_call(
+            lambda: _ref_chunk((config, [text])))[0][2]
     return r
 
 
@@ -242,7 +254,9 @@ def build_corpus(config, n, seed):
     same tokens in another order)."""
     rng = random.Random(core.h64('c01-corpus', config, seed))
     texts = ['1 + 2', '$a.b(3)', '$', '1', "'x'", 'f()', '1 +', ')', '#',
-             'a b', '[1, 2]', '$.a.b', "'abc' + 'abd'", "'abd' + 'abc'"]
+             'a b', '[1, 2]', '$.a.b', "'abc' + 'abd'", "'abd' + 'abc'",
+             '1 = 2', '$a != $b', '$x = 1 and $y != 2', "'a\\tb' = $s",
+             '$.a = $.b', 'not $a = $b', '[1 = 1, 2 != 3]']
     if config == 'delegates':
         texts += ['$(1)', '(f)(2, 3)']
     if config == 'custom':
@@ -295,7 +309,7 @@ def build_corpus(config, n, seed):
         if t not in seen and len(t) < 200:
             seen.add(t)
             out.append(t)
-    return out[:max(n, 14)]
+    return out[:max(n, 24)]
 
 
 def _ref_chunk(args):
@@ -411,6 +425,8 @@ def gen_case(seeds, params, index):
             opt = None
             if flavour == 'parse' and w.random() < 0.1:
                 opt = {'yaql.limitIterators': 5}    # engine.copy() path
+            elif flavour == 'parse' and w.random() < 0.04:
+                opt = 'lex'     # tokenise on engine.lexer (as `yaql -t` does)
             ops.append([text, opt])
         tasks.append(ops)
     if preempt == 'token':
@@ -433,8 +449,26 @@ def gen_case(seeds, params, index):
             # global; sites are resolved at execution time
             spec['write_picks'] = [[s.random(), s.randrange(1, 12)]
                                    for _ in range(s.randrange(1, 5))]
+    cold = flavour == 'parse' and w.random() < 0.08
+    if cold:
+        # first parses on a brand-new engine: operators with aliases, escapes
+        pool2 = ['1 = 2', '$a != $b', '$x = 1 and $y != 2', "'a\\tb' = $s",
+                 '1 is 2' if config == 'custom' else '$.a = $.b',
+                 'not $a = $b', '[1 = 1, 2 != 3]']
+        for ops in tasks:
+            if w.random() < 0.7:
+                ops[0][0] = w.choice(pool2)
+        preempt = 'line'
+        spec = {'policy': s.choice(['random', 'writes', 'pct']),
+                'seed': seeds.sub('sched'), 'mean': s.choice([3, 30, 300])}
+        if spec['policy'] == 'pct':
+            spec['switch_at'] = sorted(s.randrange(1, 3000)
+                                       for _ in range(s.randrange(1, 6)))
+        if spec['policy'] == 'writes':
+            spec['write_picks'] = [[s.random(), s.randrange(1, 6)]
+                                   for _ in range(s.randrange(1, 5))]
     return {'config': config, 'flavour': flavour, 'preempt': preempt,
-            'mode': 'sampled', 'tasks': tasks, 'sched': spec}
+            'mode': 'sampled', 'tasks': tasks, 'sched': spec, 'cold': cold}
 
 
 # ---------------------------------------------------------------------------
@@ -464,7 +498,7 @@ def execute(case, stats):
     from yaql.language import expressions as X
     install_token_seam()
     config = case['config']
-    engine = shared_engine(config)
+    engine = cold_engine(config) if case.get('cold') else shared_engine(config)
     flavour = case.get('flavour', 'parse')
     inparse = [0] * len(case['tasks'])
     probe = {'mid2': 0}
@@ -510,6 +544,8 @@ def execute(case, stats):
                 try:
                     if flavour == 'eval':
                         outs.append(_eval_outcome(yaql, text))
+                    elif opt == 'lex':
+                        outs.append(_lex_directly(engine, text))
                     else:
                         outs.append(outcome_of(engine, text, opt))
                 finally:
@@ -536,6 +572,8 @@ def execute(case, stats):
         failed_before = False
         for j, (text, opt) in enumerate(ops):
             got = results[tid][j]
+            if opt == 'lex':
+                continue
             exp = ref(config, text)
             if got != exp:
                 kind = ('tree-vs-tree' if got[0] == 'ok' == exp[0] else
@@ -568,6 +606,8 @@ def execute(case, stats):
     stats.inc('parses', sum(len(o) for o in case['tasks']))
     stats.inc('flavour.%s.%s.%dtasks' % (flavour, case.get('preempt'), ntasks))
     stats.inc('config.' + config)
+    if case.get('cold'):
+        stats.inc('flavour.cold_engine')
     if case.get('mode') == 'enum':
         stats.inc('enum_interleavings')
     stats.inc('probe.valid_parse_after_failed_parse_same_thread', nfail_then_ok)
@@ -582,6 +622,20 @@ def execute(case, stats):
                                 'tasks': case['tasks'],
                                 'schedule': baton.recorded[:40]}, 2)
     return viols
+
+
+def _lex_directly(engine, text):
+    """The engine's public lexer used directly, the way the command line
+    tool lists tokens; not a parse, so nothing is compared for it."""
+    lexer = engine.lexer
+    try:
+        lexer.input(text)
+        n = 0
+        while lexer.token() is not None and n < 500:
+            n += 1
+    except Exception:
+        pass
+    return ['lex']
 
 
 def _dummy_context():
